@@ -532,3 +532,205 @@ Print Assumptions C03_draw_grammar.
 Print Assumptions C03_draw_grammar_run.
 Print Assumptions C03_tree_draws.
 Print Assumptions C03_transition_draws.
+
+(* ---------------------------------------------------------------------------------------------
+   C03 additions — symmetry of the doubling process (the combinatorial core of the correctness of
+   NUTS as a sampler).  Model: Model/NUTSSym.v; proofs: Proofs/NUTSSym.v.
+   Trajectory points are named by their INDEX on the leapfrog line: the start point has index 0,
+   one leapfrog forward is +1, one backward -1.  The doubling at depth j adds 2^j points on the
+   right (direction true) or on the left (direction false).
+     spanL j0 vs / spanR j0 vs = number of points added on the left / right by the doublings with
+                                 directions vs, the first of which has depth j0
+     span_from t vs            = (t - spanL 0 vs, t + spanR 0 vs), the index interval [lo, hi]
+                                 covered after the doublings vs when starting at index t
+     all_dirs j                = the list of all direction sequences of length j
+     builds t B vs             = boolean test span_from t vs = B
+     ileap v z                 = if v then z + 1 else z - 1, the index instance of `leap`.
+   READING (the only place where probability enters): the directions are fair independent coin
+   flips, so each of the 2^j sequences of length j has probability 2^-j; by (S4)/(S5) a trajectory
+   B of 2^j points is therefore selected with the same probability 2^-j from each of its points.
+   Only statements, `exact`, Print Assumptions. *)
+From MiniMcmc Require Import Model.NUTSSym Proofs.NUTSSym.
+
+Section C03_sym.
+  Local Open Scope Z_scope.
+
+  (* (S1) j doublings starting at depth j0 add 2^j0 + ... + 2^(j0+j-1) points in total; started at
+     depth 0 from index t they cover exactly 2^j consecutive indices, t among them. *)
+  Theorem C03_span_sum : forall j0 vs,
+    spanL j0 vs + spanR j0 vs = 2 ^ Z.of_nat j0 * (2 ^ Z.of_nat (length vs) - 1).
+  Proof. exact span_sum. Qed.
+
+  Theorem C03_span_size : forall t vs,
+    snd (span_from t vs) - fst (span_from t vs) + 1 = 2 ^ Z.of_nat (length vs) /\
+    fst (span_from t vs) <= t <= snd (span_from t vs).
+  Proof. exact span_size. Qed.
+
+  (* (S2) the left extent lies in [0, 2^j) ... *)
+  Theorem C03_spanL_range : forall vs, 0 <= spanL 0 vs < 2 ^ Z.of_nat (length vs).
+  Proof. exact spanL_range. Qed.
+
+  (* (S3) ... and every value of [0, 2^j) is the left extent of exactly one direction sequence of
+     length j (binary digits); the same at any first depth j0, up to the factor 2^j0. *)
+  Theorem C03_spanL_bijection :
+    (forall j k, 0 <= k < 2 ^ Z.of_nat j -> exists vs, length vs = j /\ spanL 0 vs = k) /\
+    (forall vs vs', length vs = length vs' -> spanL 0 vs = spanL 0 vs' -> vs = vs') /\
+    (forall j0 vs, spanL j0 vs = 2 ^ Z.of_nat j0 * spanL 0 vs) /\
+    (forall j0 vs, spanR j0 vs = 2 ^ Z.of_nat j0 * spanR 0 vs).
+  Proof. exact (conj spanL_exists (conj spanL_inj (conj spanL_scale spanR_scale))). Qed.
+
+  (* (S4) SYMMETRY: from every point t of the trajectory B built from index 0 by vs there is
+     exactly one direction sequence of the same length that builds the same B. *)
+  Theorem C03_tree_symmetry : forall vs t,
+    let j := length vs in
+    let B := span_from 0 vs in
+    fst B <= t <= snd B ->
+    exists! vs', length vs' = j /\ span_from t vs' = B.
+  Proof. exact tree_symmetry. Qed.
+
+  (* (S5) counting form: among the 2^j direction sequences of length j exactly one builds B
+     from t. *)
+  Theorem C03_tree_symmetry_count : forall vs t,
+    let j := length vs in
+    let B := span_from 0 vs in
+    fst B <= t <= snd B ->
+    length (filter (builds t B) (all_dirs j)) = 1%nat /\
+    Z.of_nat (length (all_dirs j)) = 2 ^ Z.of_nat j.
+  Proof. exact tree_symmetry_count. Qed.
+
+  Theorem C03_all_dirs_spec : forall j,
+    (forall vs, In vs (all_dirs j) <-> length vs = j) /\ NoDup (all_dirs j) /\
+    (forall t B vs, builds t B vs = true <-> span_from t vs = B).
+  Proof. exact (fun j => conj (in_all_dirs j) (conj (all_dirs_NoDup j) builds_spec)). Qed.
+End C03_sym.
+
+(* Link to the model: Model/NUTS.v at P := Z, leap := ileap, all other oracles arbitrary. *)
+Section C03_sym_model.
+  Local Open Scope Z_scope.
+  Context {F A U : Type}.
+  Variable joint : Z -> F.
+  Variable noturn : Z -> Z -> bool.
+  Variable flt : F -> F -> bool.
+  Variable sub1000 : F -> F.
+  Variable alpha1 : Z -> A.
+  Variable aadd : A -> A -> A.
+  Variable take2 : U -> nat -> nat -> bool.
+  Variable logu : F.
+  Variable accept_top : U -> nat -> nat -> bool.
+
+  Notation doublings :=
+    (doublings ileap joint noturn flt sub1000 alpha1 aadd take2 logu accept_top).
+  Notation transition :=
+    (transition ileap joint noturn flt sub1000 alpha1 aadd take2 logu accept_top).
+
+  (* (S6) the doubling loop realises spanL / spanR.  Without any hypothesis: every recorded
+     doubling but the last is complete, the last one adds tnalpha <= 2^depth points (exactly
+     2^depth if it did not stop). *)
+  Theorem C03_doublings_span_gen : forall fuel (st : @nst Z) dirs tus accs stf recs dr tr ar,
+    doublings fuel st dirs tus accs = Some (stf, recs, dr, tr, ar) ->
+    exists pre d, recs = pre ++ [d] /\
+      (forall d', In d' pre -> ts (d_tree d') = true) /\
+      (1 <= tnalpha (d_tree d) <= 2 ^ (depth st + length pre))%nat /\
+      (ts (d_tree d) = true -> tnalpha (d_tree d) = (2 ^ (depth st + length pre))%nat) /\
+      lo stf = lo st - spanL (depth st) (map d_dir pre)
+               - (if d_dir d then 0 else Z.of_nat (tnalpha (d_tree d))) /\
+      hi stf = hi st + spanR (depth st) (map d_dir pre)
+               + (if d_dir d then Z.of_nat (tnalpha (d_tree d)) else 0).
+  Proof.
+    exact (doublings_span_gen joint noturn flt sub1000 alpha1 aadd take2 logu accept_top).
+  Qed.
+
+  (* If the last recorded sub-tree did not stop (the loop ended on the U-turn test of the whole
+     trajectory), or a fortiori if no recorded sub-tree stopped: *)
+  Theorem C03_doublings_span_last : forall fuel (st : @nst Z) dirs tus accs stf recs dr tr ar d0,
+    doublings fuel st dirs tus accs = Some (stf, recs, dr, tr, ar) ->
+    ts (d_tree (last recs d0)) = true ->
+    lo stf = lo st - spanL (depth st) (map d_dir recs) /\
+    hi stf = hi st + spanR (depth st) (map d_dir recs).
+  Proof.
+    exact (doublings_span_last joint noturn flt sub1000 alpha1 aadd take2 logu accept_top).
+  Qed.
+
+  Theorem C03_doublings_span : forall fuel (st : @nst Z) dirs tus accs stf recs dr tr ar,
+    doublings fuel st dirs tus accs = Some (stf, recs, dr, tr, ar) ->
+    (forall d, In d recs -> ts (d_tree d) = true) ->
+    lo stf = lo st - spanL (depth st) (map d_dir recs) /\
+    hi stf = hi st + spanR (depth st) (map d_dir recs).
+  Proof.
+    exact (doublings_span joint noturn flt sub1000 alpha1 aadd take2 logu accept_top).
+  Qed.
+
+  (* (S7) a transition started at index z0 (z0 = 0: the indexing of (S4)) *)
+  Theorem C03_transition_span : forall fuel z0 dirs tus accs stf recs dr tr ar,
+    transition fuel z0 dirs tus accs = Some (stf, recs, dr, tr, ar) ->
+    (forall d, In d recs -> ts (d_tree d) = true) ->
+    (lo stf, hi stf) = span_from z0 (map d_dir recs) /\
+    depth stf = length (map d_dir recs).
+  Proof.
+    exact (transition_span joint noturn flt sub1000 alpha1 aadd take2 logu accept_top).
+  Qed.
+
+  Theorem C03_transition_span_0 : forall fuel dirs tus accs stf recs dr tr ar,
+    transition fuel 0 dirs tus accs = Some (stf, recs, dr, tr, ar) ->
+    (forall d, In d recs -> ts (d_tree d) = true) ->
+    (lo stf, hi stf) = span_from 0 (map d_dir recs).
+  Proof.
+    exact (transition_span_0 joint noturn flt sub1000 alpha1 aadd take2 logu accept_top).
+  Qed.
+
+  (* (S8) end to end: the trajectory [lo, hi] the model built with no stopped sub-tree is built
+     from each of its points t by exactly one of the 2^depth direction sequences. *)
+  Theorem C03_transition_symmetry : forall fuel z0 dirs tus accs stf recs dr tr ar,
+    transition fuel z0 dirs tus accs = Some (stf, recs, dr, tr, ar) ->
+    (forall d, In d recs -> ts (d_tree d) = true) ->
+    forall t, lo stf <= t <= hi stf ->
+    (exists! vs', length vs' = depth stf /\ span_from t vs' = (lo stf, hi stf)) /\
+    length (filter (builds t (lo stf, hi stf)) (all_dirs (depth stf))) = 1%nat /\
+    Z.of_nat (length (all_dirs (depth stf))) = 2 ^ Z.of_nat (depth stf).
+  Proof.
+    exact (transition_symmetry joint noturn flt sub1000 alpha1 aadd take2 logu accept_top).
+  Qed.
+End C03_sym_model.
+
+(* non-vacuity: forward, backward, backward from index 0 covers [-6, 1]; from its point -3 the
+   one rebuilding sequence is backward, backward, forward; the model's loop produces exactly this
+   trajectory (U-turn test: fewer than 8 points; nothing else stops). *)
+Example C03_span_concrete : span_from 0%Z [true; false; false] = ((-6)%Z, 1%Z).
+Proof. exact span_from_ex. Qed.
+
+Example C03_tree_symmetry_concrete :
+  span_from (-3)%Z [false; false; true] = span_from 0%Z [true; false; false] /\
+  (forall vs', length vs' = 3 ->
+     span_from (-3)%Z vs' = span_from 0%Z [true; false; false] -> vs' = [false; false; true]) /\
+  length (filter (builds (-3)%Z (span_from 0%Z [true; false; false])) (all_dirs 3)) = 1 /\
+  length (all_dirs 3) = 8.
+Proof. exact tree_symmetry_ex. Qed.
+
+Example C03_transition_span_concrete :
+  match transition (F := unit) (A := unit) (U := unit)
+          ileap (fun _ => tt) (fun l h => (h - l <? 7)%Z) (fun _ _ => true) (fun x => x)
+          (fun _ => tt) (fun _ _ => tt) (fun _ _ _ => false) tt (fun _ _ _ => true)
+          5 0%Z [true; false; false; true] (repeat tt 10) (repeat tt 5) with
+  | Some (stf, recs, dr, _, _) =>
+      (lo stf, hi stf) = ((-6)%Z, 1%Z) /\ map d_dir recs = [true; false; false] /\
+      forallb (fun d => ts (d_tree d)) recs = true /\ dr = [true]
+  | None => False
+  end.
+Proof. exact transition_span_ex. Qed.
+
+Print Assumptions C03_span_sum.
+Print Assumptions C03_span_size.
+Print Assumptions C03_spanL_range.
+Print Assumptions C03_spanL_bijection.
+Print Assumptions C03_tree_symmetry.
+Print Assumptions C03_tree_symmetry_count.
+Print Assumptions C03_all_dirs_spec.
+Print Assumptions C03_doublings_span_gen.
+Print Assumptions C03_doublings_span_last.
+Print Assumptions C03_doublings_span.
+Print Assumptions C03_transition_span.
+Print Assumptions C03_transition_span_0.
+Print Assumptions C03_transition_symmetry.
+Print Assumptions C03_span_concrete.
+Print Assumptions C03_tree_symmetry_concrete.
+Print Assumptions C03_transition_span_concrete.
